@@ -127,8 +127,9 @@ def run(chk):
     samples = []
     windows = 0
     evals = 0
-    per_case_limit = 40 if quick else 400
-    fixed_limit = 150 if quick else 3000
+    notes = {}
+    per_case_limit = 12 if quick else 400
+    fixed_limit = 60 if quick else 3000
 
     def judge(case, r, fine, sched):
         nonlocal windows, evals
@@ -139,6 +140,9 @@ def run(chk):
         if any(e[2] == "start" for e in r.log) and k3.preemptions(r.trace) > 0:
             nontrivial.add(h)
         for sig, msg in bad:
+            if sig.startswith("NOTE "):
+                notes[sig] = notes.get(sig, 0) + 1
+                continue
             if sig == E.WINDOW_SIG:
                 windows += 1
             chk.violation(sig, {"case": case, "schedule": sched, "fine": fine, "what": msg,
@@ -172,7 +176,7 @@ def run(chk):
                 if len(samples) < 4 and n == 3:
                     samples.append({"case": case, "schedule": sched,
                                     "log": [list(map(str, e)) for e in r.log][:40]})
-            for _ in range(6 if quick else 40):
+            for _ in range(4 if quick else 40):
                 r = E.run_case(case, k3.random_chooser(chk.rng), fine=False)
                 hist["random"] += 1
                 judge(case, r, False, r.schedule)
@@ -182,10 +186,10 @@ def run(chk):
                     coq_meta.append((case, r.schedule))
             # fine: every line and every lock operation
             for sched, _ in k3.explore(lambda ch: once(ch, True), 1 if quick else 2,
-                                       limit=max(10, lim // 3)):
+                                       limit=max(6, lim // 3)):
                 hist["fine"] += 1
                 judge(case, box["r"], True, sched)
-            for _ in range(3 if quick else 20):
+            for _ in range(2 if quick else 20):
                 r = E.run_case(case, k3.random_chooser(chk.rng), fine=True)
                 hist["fine"] += 1
                 judge(case, r, True, r.schedule)
@@ -217,6 +221,7 @@ def run(chk):
     chk.cov["traces_validated_against_impl"] = len(coq_cases)
     chk.cov["disagreements_checked"] = len([b for b in bad if b >= 0])
     chk.cov["dispatch_window_hits"] = windows
+    chk.cov["observations_outside_the_property"] = notes
     chk.cov["k3_time_self_test"] = "ok" if ok_st else "FAILED"
     chk.cov["atomicity_structure"] = "as assumed by the model" if not diffs else "DIFFERS"
     chk.add_samples(samples)
@@ -245,6 +250,8 @@ def replay(chk, path):
     print(json.dumps({"case": case, "schedule_followed": r.schedule, "log": [list(map(str, e)) for e in r.log],
                       "oracle": bad}, indent=1))
     for sig, msg in bad:
+        if sig.startswith("NOTE "):
+            continue
         chk.violation(sig, {"case": case, "schedule": r.schedule, "fine": fine, "what": msg,
                             "implementation_log": [list(map(str, e)) for e in r.log]},
                       size=case_size(case, r.schedule))
